@@ -8,6 +8,10 @@
                                 buffers: saved = set_refmap(B, &nested_map); build the `nested` field as a nested buffer
                                 (clone of the source's leaf); set_refmap(B, saved); then pick the remaining fields.
                                 api=<bits> reports set_refmap returning the wrong map / changing a map's content
+           oldclone | oldpick:<mask>  the source is built with this schema (union Any { Node, Leaf, Vec3, Pair, Str }), clone / pick is
+                                done with the code generated from the OLDER schema (union Any { Node, Leaf, Vec3 }) and the copy is
+                                verified with the older verifier; members the older schema does not know must read as NONE
+   request:  raw <mode> <refmap> <dumps> <hex>   like run, the source is the given (hand-made) buffer
    request:  api          direct test of flatcc_builder_set_refmap / get_refmap / refmap_find / refmap_insert -> API ok | API <failures>
      objects are numbered 0.. in order of appearance, later objects refer to earlier ones by number (sharing = DAG):
        S:<hex>  string        B:<hex> [ubyte]     L:<a.b.c> [long]   C:<a.b> [Color]   V:<a.b> [Vec3]   P:<a.b> [Pair]
@@ -29,6 +33,8 @@
 #include "flatcc/flatcc_refmap.h"
 #include "c18_clone_builder.h"
 #include "c18_clone_verifier.h"
+#include "c18_clone_old_builder.h"    /* namespace CO: the same schema with `union Any { Node, Leaf, Vec3 }` (an older version) */
+#include "c18_clone_old_verifier.h"
 #undef ns
 #define ns(x) FLATBUFFERS_WRAP_NAMESPACE(CT, x)
 
@@ -96,8 +102,10 @@ static void d_leaf(struct obuf *o, struct ids *t, ns(Leaf_table_t) l)
     d_vec3(o, ns(Leaf_pos(l))); ob_put(o, " "); d_strvec(o, t, ns(Leaf_tags(l))); ob_put(o, "}");
 }
 static void d_node(struct obuf *o, struct ids *t, ns(Node_table_t) n, unsigned mask);
+static unsigned g_known_max = 255;   /* union member codes above this read as NONE (two-schema modes) */
 static void d_union(struct obuf *o, struct ids *t, ns(Any_union_t) u)
 {
+    if (u.type > g_known_max) { u.type = 0; u.value = 0; }
     ob_put(o, "U%u:", (unsigned)u.type);
     switch (u.type) {
     case ns(Any_NONE): ob_put(o, u.value ? "!value" : "-"); break;
@@ -147,11 +155,11 @@ static void d_node(struct obuf *o, struct ids *t, ns(Node_table_t) n, unsigned m
         if (!v) ob_put(o, "~"); else { ob_put(o, "["); if (!identv(t, v, o)) { k = ns(Node_vec_len(v)); for (i = 0; i < k; ++i) { d_node(o, t, ns(Node_vec_at(v, i)), ~0u); ob_put(o, ","); } } ob_put(o, "]"); } ob_put(o, " "); }
     if (M(19)) { ns(Leaf_vec_t) v = ns(Node_leaves(n)); ob_put(o, "leaves=");
         if (!v) ob_put(o, "~"); else { ob_put(o, "["); if (!identv(t, v, o)) { k = ns(Leaf_vec_len(v)); for (i = 0; i < k; ++i) { d_leaf(o, t, ns(Leaf_vec_at(v, i))); ob_put(o, ","); } } ob_put(o, "]"); } ob_put(o, " "); }
-    if (M(20)) { ob_put(o, "any%d=", ns(Node_any_is_present(n))); d_union(o, t, ns(Node_any_union(n))); ob_put(o, " "); }
+    if (M(20)) { ob_put(o, "any%d=", ns(Node_any_is_present(n)) && ns(Node_any_type(n)) <= g_known_max); d_union(o, t, ns(Node_any_union(n))); ob_put(o, " "); }
     if (M(21)) { ns(Any_vec_t) tv = ns(Node_anys_type(n)); flatbuffers_generic_vec_t vv = ns(Node_anys(n)); ob_put(o, "anys=");
         if (!tv && !vv) ob_put(o, "~"); else if (!tv || !vv) ob_put(o, "!half"); else {
             ns(Any_union_vec_t) uv = ns(Node_anys_union(n));
-            ob_put(o, "T["); if (!identv(t, tv, o)) { k = ns(Any_vec_len(tv)); for (i = 0; i < k; ++i) ob_put(o, "%u,", (unsigned)ns(Any_vec_at(tv, i))); } ob_put(o, "]");
+            ob_put(o, "T["); if (!identv(t, tv, o)) { k = ns(Any_vec_len(tv)); for (i = 0; i < k; ++i) ob_put(o, "%u,", (unsigned)ns(Any_vec_at(tv, i)) > g_known_max ? 0u : (unsigned)ns(Any_vec_at(tv, i))); } ob_put(o, "]");
             ob_put(o, "W["); if (!identv(t, vv, o)) { k = ns(Any_union_vec_len(uv)); for (i = 0; i < k; ++i) { d_union(o, t, ns(Any_union_vec_at(uv, i))); ob_put(o, ","); } } ob_put(o, "]"); }
         ob_put(o, " "); }
     if (M(22)) { flatbuffers_uint8_vec_t v = ns(Node_nested(n)); ob_put(o, "nested=");
@@ -369,6 +377,13 @@ static int op_vec(flatcc_builder_t *B, ns(Node_table_t) t, unsigned mask)
     return 0;
 }
 
+static int op_pick_old(flatcc_builder_t *B, CO_Node_table_t src, unsigned mask)
+{
+#define X(i, name) if (M(i) && CO_Node_##name##_pick(B, src)) return -(100 + i);
+    FIELDS(X)
+#undef X
+    return 0;
+}
 static unsigned g_api;   /* bit 0: set_refmap did not return the previous map, bit 1: a map changed under set_refmap, bit 2: get_refmap wrong */
 static int op_swap(flatcc_builder_t *B, ns(Node_table_t) src, unsigned mask, unsigned split, flatcc_refmap_t *outer)
 {
@@ -427,11 +442,13 @@ static void run(char **tok, int ntok)
     struct obuf vs = {0, 0, 0}, vd = {0, 0, 0}, hs = {0, 0, 0}, hd = {0, 0, 0}; struct ids is = {0, 0, 0, 0, 0}, id = {0, 0, 0, 0, 0};
     ns(Node_table_t) sroot;
     size_t mapcount = 0, nalias = 0; unsigned extra = 0, split = 0; int swap = !strncmp(mode, "swap", 4), nest_eq = 1;
+    int raw = !strcmp(tok[0], "raw"), old = !strncmp(mode, "old", 3); void *raw_free = 0;
     if (colon) { char *e; mask = (unsigned)strtoul(colon + 1, &e, 10); if (*e == ':') split = (unsigned)strtoul(e + 1, 0, 10); }
     if (swap) mask &= ~(1u << 22);
     g_api = 0;
-    nobjs = 0; g_err = 0;
+    nobjs = 0; g_err = 0; g_known_max = old ? 3 : 255;
     flatcc_builder_init(&B1);
+    if (raw) { src = hx_decode_aligned(tok[4], 0, &ssz, &raw_free); goto have_src; }
     if (flatcc_builder_start_buffer(&B1, 0, 0, 0)) { printf("ERR start_buffer\n"); goto done1; }
     for (i = 4; i < ntok; ++i) {
         if (build_obj(&B1, tok[i], &is_node)) { printf("ERR build object %d: %s\n", i - 4, g_err ? g_err : "?"); goto done1; }
@@ -441,7 +458,9 @@ static void run(char **tok, int ntok)
     if (!flatcc_builder_end_buffer(&B1, root)) { printf("ERR end_buffer\n"); goto done1; }
     src = flatcc_builder_finalize_aligned_buffer(&B1, &ssz);
     if (!src) { printf("ERR finalize source\n"); goto done1; }
+have_src:
     srcv = ns(Node_verify_as_root(src, ssz));
+    if (!srcv && old) srcv = CO_Node_verify_as_root(src, ssz);
     if (srcv) { printf("ERR source does not verify: %s\n", flatcc_verify_error_string(srcv)); goto done1; }
     sroot = ns(Node_as_root(src));
     d_node(&hs, &is, sroot, mask); nalias = key_aliases(&is);
@@ -450,6 +469,12 @@ static void run(char **tok, int ntok)
     if (use_map) flatcc_builder_set_refmap(&B2, &refmap);
     if (!strncmp(mode, "clone", 5)) {
         if (!ns(Node_clone_as_root(&B2, sroot))) rc = -1;
+    } else if (!strncmp(mode, "oldclone", 8)) {
+        if (!CO_Node_clone_as_root(&B2, (CO_Node_table_t)sroot)) rc = -1;
+    } else if (old) {
+        if (flatbuffers_buffer_start(&B2, 0) || CO_Node_start(&B2)) rc = -2;
+        if (!rc) rc = op_pick_old(&B2, (CO_Node_table_t)sroot, mask);
+        if (!rc && !flatbuffers_buffer_end(&B2, CO_Node_end(&B2))) rc = -3;
     } else {
         if (flatbuffers_buffer_start(&B2, 0) || ns(Node_start(&B2))) rc = -2;
         if (!rc) rc = swap ? op_swap(&B2, sroot, mask, split, use_map ? &refmap : 0) : !strncmp(mode, "pick", 4) ? op_pick(&B2, sroot, mask) : !strncmp(mode, "fclone", 6) ? op_fclone(&B2, sroot, mask) : op_vec(&B2, sroot, mask);
@@ -460,7 +485,7 @@ static void run(char **tok, int ntok)
     if (rc) { printf("OK srcv=0 failed=%d alias=%lu size=%lu/0\n", rc, (unsigned long)nalias, (unsigned long)ssz); goto done2; }
     dst = flatcc_builder_finalize_aligned_buffer(&B2, &dsz);
     if (!dst) { printf("OK srcv=0 failed=-4 alias=%lu size=%lu/0\n", (unsigned long)nalias, (unsigned long)ssz); goto done2; }
-    dstv = ns(Node_verify_as_root(dst, dsz));
+    dstv = old ? CO_Node_verify_as_root(dst, dsz) : ns(Node_verify_as_root(dst, dsz));
     if (dstv) { printf("OK srcv=0 dstv=%d alias=%lu size=%lu/%lu (%s)\n", dstv, (unsigned long)nalias, (unsigned long)ssz, (unsigned long)dsz, flatcc_verify_error_string(dstv)); goto done2; }
     d_node(&vs, 0, sroot, mask); d_node(&vd, 0, ns(Node_as_root(dst)), mask);
     d_node(&hd, &id, ns(Node_as_root(dst)), mask);
@@ -491,6 +516,7 @@ done2:
     if (dst) flatcc_builder_aligned_free(dst);
     flatcc_builder_clear(&B2);
 done1:
+    if (raw) { free(raw_free); src = 0; }
     if (src) flatcc_builder_aligned_free(src);
     flatcc_builder_clear(&B1);
     free(vs.p); free(vd.p); free(hs.p); free(hd.p); free((void *)is.p); free((void *)id.p); free((void *)is.rk); free((void *)id.rk);
@@ -509,7 +535,7 @@ int main(void)
             if (*p) *p++ = 0;
         }
         alarm(10);   /* a reference map whose probe loop does not end must not hang the check */
-        if (n >= 5 && !strcmp(tok[0], "run")) run(tok, (int)n); else if (n == 1 && !strcmp(tok[0], "api")) run_api(); else printf("BAD\n");
+        if (n >= 5 && (!strcmp(tok[0], "run") || !strcmp(tok[0], "raw"))) run(tok, (int)n); else if (n == 1 && !strcmp(tok[0], "api")) run_api(); else printf("BAD\n");
         alarm(0);
         fflush(stdout);
     }
